@@ -16,6 +16,8 @@ Section CgrMorgan.
   Definition datom_invariant (a : datom) : Z :=
     h [oz (d_iso a); d_num a; d_chg a; d_pchg a; b2z (d_rad a); b2z (d_prad a)].
   Definition dbond_invariant (b : dbond) : Z := h [oz (db_ord b); oz (db_pord b)].
+  (* DynamicBond.__int__ = hash(self): the value the SMILES traversal uses to order neighbours of equal Morgan class *)
+  Definition dbond_int (b : dbond) : Z := dbond_invariant b.
   Definition cgr_int_adjacency (c : cgr) : iadj :=
     map (fun nl => (fst nl, map (fun mb => (fst mb, dbond_invariant (snd mb))) (snd nl))) (c_adj c).
   Definition cgr_atom_labels (c : cgr) : labels := map (fun na => (fst na, datom_invariant (snd na))) (c_atoms c).
